@@ -389,6 +389,7 @@ func (st *c12Stream) run(wire []byte, ev *c12Eval, rng *rand.Rand, split map[str
 	}
 	bufs := ev.Bufs
 	bi := 0
+	var reuse []byte
 	for iter := 0; iter < 1000000; iter++ {
 		if iter%20000 == 19999 {
 			// the worker runs with the collector off; the decoder allocates a 4 KiB parse buffer per
@@ -409,7 +410,16 @@ func (st *c12Stream) run(wire []byte, ev *c12Eval, rng *rand.Rand, split map[str
 		if bs < 1 {
 			bs = 1
 		}
-		b := make([]byte, bs)
+		// the consumer owns its buffer between calls and reuses it, as io.Copy does; it is overwritten before
+		// every call (io.Reader: "implementations must not retain p"), so a decoder that keeps a view into it
+		// reads garbage instead of happening to find the old bytes still there
+		if cap(reuse) < bs {
+			reuse = make([]byte, bs)
+		}
+		b := reuse[:bs]
+		for i := range b {
+			b[i] = 0xA5
+		}
 		n, e := rd.Read(b)
 		if n < 0 || n > len(b) {
 			return out, fmt.Errorf("Read returned n=%d for a %d byte buffer", n, len(b)), nil, src
